@@ -2,6 +2,7 @@ package props
 
 import (
 	"fmt"
+	"github.com/llir/llvm/ir/types"
 	"math/rand"
 	"strings"
 
@@ -184,7 +185,11 @@ func c08Func(fname string, params string, shape string, mode int, rng *rand.Rand
 			} else if bi > 0 && !explicit() {
 				// implicit label of a non-entry block: the instruction after a terminator starts it
 			} else {
-				fmt.Fprintf(&sb, "%d:\n", lab.id)
+				if rng.Intn(5) == 0 {
+					fmt.Fprintf(&sb, "0%d:\n", lab.id) // a label ID may be spelled with leading zeros
+				} else {
+					fmt.Fprintf(&sb, "%d:\n", lab.id)
+				}
 			}
 		} else {
 			fmt.Fprintf(&sb, "%s:\n", lab.name)
@@ -336,6 +341,7 @@ func genC08(ctx *fw.Ctx) []fw.Case {
 		part := mshapes[i:j]
 		cases = append(cases, fw.Case{ID: fmt.Sprintf("modules/%d", i/mper), Run: func(r *fw.Rec) { c08ModuleBatch(r, part) }})
 	}
+	cases = append(cases, fw.Case{ID: "api/numbers-used-outside-their-function", Run: c08APIOutsideUses})
 	return cases
 }
 
@@ -697,4 +703,56 @@ func c08ModuleBatch(r *fw.Rec, shapes []string) {
 		r.Tally("module_shapes", fmt.Sprintf("len%d", len(sh)))
 	}
 	r.Sample(map[string]interface{}{"module_shapes": shapes[:min(5, len(shapes))], "alphabet": "G/g named/unnamed global, A/a alias, I/i ifunc, D/d declaration, F/f definition"})
+}
+
+// c08APIOutsideUses: modules built through the API in which the number of an
+// unnamed block is used outside its function (global initializers, earlier
+// functions), with and without global variables, with 1-3 unnamed values in
+// front of the block. The first print of the never printed module must carry the
+// numbers LLVM expects (llvm-as accepts it and reads it like the second print).
+func c08APIOutsideUses(r *fw.Rec) {
+	for withGlobals := 0; withGlobals < 2; withGlobals++ {
+		for extra := 0; extra < 3; extra++ {
+			m := ir.NewModule()
+			mk := func(name string) (*ir.Func, *ir.Block) {
+				f := m.NewFunc(name, types.I32, ir.NewParam("", types.I32))
+				entry := f.NewBlock("")
+				var v value.Value = f.Params[0]
+				for k := 0; k <= extra; k++ {
+					v = entry.NewAdd(v, constant.NewInt(types.I32, 1))
+				}
+				target := f.NewBlock("")
+				entry.NewBr(target)
+				target.NewRet(v)
+				return f, target
+			}
+			user := m.NewFunc("user", types.I8Ptr)
+			fb, tb := mk("later")
+			user.NewBlock("").NewRet(constant.NewBlockAddress(fb, tb))
+			if withGlobals == 1 {
+				m.NewGlobalDef("slot", constant.NewBlockAddress(fb, tb))
+			}
+			want := fmt.Sprintf("blockaddress(@later, %%%d)", extra+3)
+			first, pp := printGuard(m)
+			r.Eval(1)
+			if pp != "" {
+				r.Violate(fw.Violation{Key: "api-print-panic/outside-use", What: firstLine(pp)})
+				continue
+			}
+			if !strings.Contains(first, want) {
+				r.Violate(fw.Violation{Key: fmt.Sprintf("api-wrong-number/outside-use/globals=%d", withGlobals), Input: first,
+					What: fmt.Sprintf("the first print of a constructed module does not contain %s (the block is the %dth numbered value of @later)", want, extra+4), Observed: first})
+				continue
+			}
+			if ok, msg, err := llvmref.Accepts(first); err == nil && !ok {
+				r.Violate(fw.Violation{Key: fmt.Sprintf("api-printed-numbering-invalid/outside-use/globals=%d", withGlobals), Input: first, What: "LLVM rejects the first print: " + firstLine(lastDiag(msg))})
+				continue
+			}
+			if second, _ := printGuard(m); second != first {
+				r.Violate(fw.Violation{Key: "api-second-print-differs/outside-use", Input: first, What: "numbering an already numbered module again changes the text: " + firstDiffLines(first, second)})
+				continue
+			}
+			r.Nontrivial(fmt.Sprintf("api-outside-use/%d/%d", withGlobals, extra))
+		}
+	}
 }
